@@ -47,10 +47,23 @@ UNDECIDED = ["rendered geometry and tick values (matplotlib output)"]
 ASSUMPTIONS = ["os.listdir order is arbitrary; sorted() without key is lexicographic on file names"]
 
 
-def _writer_names(save):
+def _writer_fstrings(ctx, save):
+    """The f-strings that make up the file name handed to savefig (a private
+    one-expression path helper is expanded)."""
+    out = []
+    for n in own_nodes(save.node):
+        if isinstance(n, ast.Call) and isinstance(n.func, ast.Attribute) and n.func.attr == "savefig" and n.args:
+            x = ctx.norm.xexpr(save, n.args[0])
+            out += [j for j in ast.walk(x) if isinstance(j, ast.JoinedStr)]
+    if not out:
+        out = [j for j in own_nodes(save.node) if isinstance(j, ast.JoinedStr)]
+    return out
+
+
+def _writer_names(save, fstrings=None):
     """File names `_save_frame` produces for a range of frame numbers,
     computed from the constant pieces and the format spec of its f-string."""
-    for n in own_nodes(save.node):
+    for n in (fstrings if fstrings is not None else own_nodes(save.node)):
         if not isinstance(n, ast.JoinedStr):
             continue
         for i, v in enumerate(n.values):
@@ -94,7 +107,7 @@ def _name_filters(ctx, save, load):
     import re as _re
 
     chk = ctx.chk
-    names = _writer_names(save)
+    names = _writer_names(save, _writer_fstrings(ctx, save))
     if names is None:
         raise AnalysisError("_save_frame: file-name template not recognised")
     scope = [load]
@@ -246,12 +259,13 @@ def run(ctx):
     ):
         chk.rule(rid, txt)
     GIFMOD, PLOTMOD = "_gantt_chart_video_and_gif_creation", "_plot_gantt_chart"
-    save = _by_role(ctx, GIFMOD, _calls_attr("savefig"), "that saves a figure (savefig)", prefer="_save_frame")
+    save_raw = _by_role(ctx, GIFMOD, _calls_attr("savefig"), "that saves a figure (savefig)", prefer="_save_frame")
+    save = ctx.norm.flat(save_raw)  # a private path helper is inlined
     load = _by_role(ctx, GIFMOD, _calls_attr("imread"), "that reads the frame images (imread)", prefer="_load_images")
 
     # ---------------------------------------------------------------- R20.a
     fmt = None
-    for n in own_nodes(save.node):
+    for n in _writer_fstrings(ctx, save):
         if isinstance(n, ast.JoinedStr):
             for v in n.values:
                 if isinstance(v, ast.FormattedValue) and isinstance(v.value, ast.Name) and v.value.id == save.params[2]:
@@ -517,7 +531,7 @@ def run(ctx):
                     body_calls.append(n)
         disp = [c for c in body_calls if isinstance(c.func, ast.Attribute) and c.func.attr == "dispatch"]
         plot = [c for c in body_calls if isinstance(c.func, ast.Name) and c.func.id == "plot_function"]
-        sv = [c for c in body_calls if isinstance(c.func, ast.Name) and c.func.id == save.name]
+        sv = [c for c in body_calls if isinstance(c.func, ast.Name) and c.func.id == save_raw.name]
         if len(disp) != 1 or len(plot) != 1 or len(sv) != 1:
             okc = False
             chk.violation("R20.c", frames, lp, "each frame is not produced by exactly one dispatch, one plot and one save", loc=frames.loc(lp))
@@ -617,5 +631,27 @@ def run(ctx):
     if not last_tick:
         oke = False
         chk.violation("R20.e", ca_raw, None, "the last tick is not forced to the axis limit")
+    # no tick other than the limit is added by hand: set_xticks widens the view
+    # to show every tick, so a tick beyond a requested xlim moves the axis end
+    sxt = [n for n in nodes if isinstance(n, ast.Call) and isinstance(n.func, ast.Attribute) and n.func.attr == "set_xticks" and n.args]
+    tick_names = {a.id for c in sxt for a in c.args[:1] if isinstance(a, ast.Name)}
+    for n in nodes:
+        if not (isinstance(n, ast.Call) and isinstance(n.func, ast.Attribute) and isinstance(n.func.value, ast.Name) and n.func.value.id in tick_names):
+            continue
+        added = None
+        if n.func.attr == "append" and n.args:
+            added = n.args[0]
+        elif n.func.attr == "insert" and len(n.args) == 2:
+            added = n.args[1]
+        elif n.func.attr == "extend" and n.args:
+            added = n.args[0]
+        if added is not None and ast.unparse(added) != lv and ctx.norm.xtext(ca, added).replace(" ", "") != lt:
+            oke = False
+            chk.violation(
+                "R20.e", ca_raw, n,
+                f"the tick `{ast.unparse(added)}` is added besides the axis limit `{lv}`: matplotlib widens the view to show "
+                "every tick, so with a requested limit below that value the time axis no longer ends at the limit",
+                loc=ca.loc(n),
+            )
     if oke:
         chk.ok("R20.e", ca_raw.qualname, ca_raw.loc(), "axis [0, xlim or makespan], last tick at the limit")
